@@ -164,20 +164,70 @@ fn run<R: Recv>(r: &R, op: &str, args: &[&str]) -> Option<String> {
     })
 }
 
+/// the SAME object on both sides (`a.op(&a)`): a shortcut decided by `ptr::eq` must still give what two equal arrays give
+fn run_alias(a: &Array<String>, op: &str) -> Option<String> {
+    Some(match op {
+        "add" => guarded(|| f_s(&a.add(a))), "join" => guarded(|| f_s(&a.join(a))),
+        "partition" => guarded(|| f_t(&a.partition(a))), "rpartition" => guarded(|| f_t(&a.rpartition(a))),
+        "equal" => guarded(|| f_b(&a.equal(a))), "not_equal" => guarded(|| f_b(&a.not_equal(a))), "greater_equal" => guarded(|| f_b(&a.greater_equal(a))),
+        "less_equal" => guarded(|| f_b(&a.less_equal(a))), "greater" => guarded(|| f_b(&a.greater(a))), "less" => guarded(|| f_b(&a.less(a))),
+        "count" => guarded(|| f_n(&a.count(a))), "starts_with" => guarded(|| f_b(&a.starts_with(a))), "ends_with" => guarded(|| f_b(&a.ends_with(a))),
+        "find" => guarded(|| f_i(&a.find(a))), "rfind" => guarded(|| f_i(&a.rfind(a))), "index" => guarded(|| f_i(&a.index(a))), "rindex" => guarded(|| f_i(&a.rindex(a))),
+        _ => return None,
+    })
+}
+
 /// BOTH receivers on every case: the plain `Array<String>` call, the same call on `Ok(array)` through
 /// `impl … for Result<Array<String>, ArrayError>` (must give the same answer), and on an `Err(..)` receiver (must stay an error)
-fn exec(op: &str, args: &[&str], expected: &str) -> Option<Verdict> {
+fn exec_case(op: &str, args: &[&str], expected: &str) -> Option<Verdict> {
     let a = p_sarr(args.first()?)?;
     let plain = run(&a, op, args)?;
     let ok_recv: Result<Array<String>, ArrayError> = Ok(a.clone());
     let chained = run(&ok_recv, op, args)?;
     let err_recv: Result<Array<String>, ArrayError> = Err(ArrayError::NotImplemented);
     let on_err = run(&err_recv, op, args)?;
+    // aliasing: a second operand spelled exactly like the receiver is ALSO passed as the very same object
+    let aliased = if args.len() == 2 && args[1] == args[0] { run_alias(&a, op) } else if op == "replace" && args.len() == 4 && args[1] == args[0] && args[2] == args[0] {
+        let c: Option<usize> = p_opt(args[3], |x| x.parse().ok())?; Some(guarded(|| f_s(&a.replace(&a, &a, c)))) } else { None };
     let observed =
         if chained != plain { format!("RECEIVER-DIVERGENCE chained call on Ok(array) gives `{}`, plain call `{}`", truncate(&chained, 300), truncate(&plain, 300)) }
         else if class_of(&on_err) != "err" { format!("RECEIVER-DIVERGENCE the call on an Err(..) receiver gives `{}`", truncate(&on_err, 300)) }
+        else if aliased.as_ref().is_some_and(|x| *x != plain) { format!("ALIAS-DIVERGENCE `a.{op}(&a)` gives `{}`, the call with an equal second array `{}`", truncate(&aliased.unwrap(), 300), truncate(&plain, 300)) }
         else { plain };
     Some(compare_default(observed, expected))
+}
+
+thread_local! {
+    /// the previous case of this thread (op, arguments, model answer, what the crate answered) — for the A–B–A discipline
+    static PREV: std::cell::RefCell<Option<(String, Vec<String>, String, String)>> = const { std::cell::RefCell::new(None) };
+    static SEQ: std::cell::Cell<u64> = const { std::cell::Cell::new(0) };
+}
+fn verdict_text(v: &Option<Verdict>) -> String {
+    match v { None => "harness-error".into(), Some(Verdict::Match(o)) => format!("match {o}"), Some(Verdict::Open(o)) => format!("open {o}"), Some(Verdict::Mismatch { observed, .. }) => format!("mismatch {observed}") }
+}
+
+/// A–B–A: every third case B is followed by a re-run of the case A executed just before it; the crate must answer A exactly as it did
+/// the first time (a memo / cache that survives a call makes the answer depend on the call in between).
+fn exec(op: &str, args: &[&str], expected: &str) -> Option<Verdict> {
+    let mut out = exec_case(op, args, expected);
+    let seq = SEQ.with(|s| { let x = s.get() + 1; s.set(x); x });
+    let prev = PREV.with(|p| p.borrow_mut().take());
+    if let Some((pop, pargs, pexp, ptext)) = &prev {
+        let differs = pop != op || pargs.iter().map(String::as_str).ne(args.iter().copied());
+        if differs && seq % 3 == 0 && !matches!(out, Some(Verdict::Mismatch { .. }) | None) {
+            let pa: Vec<&str> = pargs.iter().map(String::as_str).collect();
+            let again = verdict_text(&exec_case(pop, &pa, pexp));
+            if again != *ptext {
+                out = Some(Verdict::Mismatch { observed: format!("A-B-A: `{} {}` answered `{}` before this case and `{}` after it", pop, truncate(&pa.join(" "), 300), truncate(ptext, 300), truncate(&again, 300)),
+                                               detail: "the answer to a call must not depend on the calls made before it (hidden state)".into() });
+            }
+        }
+    }
+    // huge cases are not kept (the re-run would double their cost)
+    let keep = args.iter().map(|a| a.len()).sum::<usize>() <= 30_000;
+    let text = verdict_text(&out);
+    PREV.with(|p| *p.borrow_mut() = if keep { Some((op.to_string(), args.iter().map(|a| a.to_string()).collect(), expected.to_string(), text)) } else { None });
+    out
 }
 
 // ------------------------------------------------------------------ generation
@@ -243,6 +293,9 @@ fn corpus(out: &mut dyn FnMut(String), late: &mut Vec<String>) {
     out(format!("zfill 2:{},{} 0", hex("-5"), hex("5")));
     out(format!("replace 1:{} 1:{} 1:{} 2", hex("aab"), hex("ab"), hex("b")));
     out(format!("replace 1:{} 1:{} 1:{} 2", hex("ab"), hex("a"), hex("ba")));
+    // round-3 seeded change: 20 000 strings against ONE pattern (block-wise path forgetting the last len % 16384 positions)
+    out(format!("count {} 1:{}", warr(&[20000], |k| hex(&subj(k))), hex("a")));
+    out(format!("starts_with {} 1,1:{}", warr(&[130, 127], |k| hex(&subj(k))), hex("")));
     late.push(format!("replace 1:{} 1:{} 1:{} none", hex("a"), hex("a"), hex("aa")));
     late.push(format!("replace 1:{} 1:{} 1:{} none", hex("ab"), hex(""), hex("-")));
 }
@@ -443,6 +496,8 @@ fn gen(tier: &str, seed: u64, out: &mut dyn FnMut(String)) {
     }
 
     robust(thorough, seed, out, &mut late);
+    // ---- part 2: huge arrays, colliding shapes (A, B, A), value fingerprints, refused-then-valid, exact lengths, aliasing, ranks 4..6
+    robust2(thorough, seed, out, &mut late);
 
     // ---- replace, last (on the pinned tree some of these never return): alphabet {a,b,-}
     {
@@ -672,6 +727,149 @@ fn robust(thorough: bool, seed: u64, out: &mut dyn FnMut(String), late: &mut Vec
             late.push(format!("replace {a} {b} {} {}", warr(&ps[rng.below(ps.len())], |k| hex(["+", "", "xy"][k % 3])), rng.pick(&["none", "1", "3"])));
         }
     }
+}
+
+
+// ------------------------------------------------------------------ robustness streams, part 2 (FRAMEWORK.md)
+
+const INDEX_OPS: &[&str] = &["count", "find", "rfind", "index", "rindex", "starts_with", "ends_with"];
+
+fn robust2(thorough: bool, seed: u64, out: &mut dyn FnMut(String), late: &mut Vec<String>) {
+    let hs = |k: usize| hex(&subj(k));
+    let hp = |k: usize| hex(&pat(k));
+    let other_pairs: Vec<&str> = PAIR_OPS.iter().chain(STRIP_OPS.iter()).copied().filter(|o| !INDEX_OPS.contains(o)).collect();
+    // ---- (7) huge arrays (16 384 … 140 000 short strings): every operation; a scalar-like argument `[1]`, `[1,1]`, `[1,1,1]` (rank <= the
+    //      rank of the array), the same shape, the trailing axis, unit axes.  The scalar patterns "", "a", "-" occur in most subjects, so a
+    //      position left at its pre-filled "missing" value (0 / -1 / false) shows.  The model driver lifts in linear time here.
+    let mut huge: Vec<Vec<usize>> = vec![vec![16385], vec![20000], vec![33000], vec![70001], vec![130, 127], vec![129, 131], vec![2, 3, 5000], vec![100, 200], vec![40, 30, 30]];
+    if thorough { huge.extend([vec![16384], vec![32768], vec![65537], vec![2, 70000], vec![70000, 2], vec![10, 11, 12, 13], vec![300, 300], vec![130, 130]]); }
+    let spats = ["a", "", "-", "aa", "b", "ab"];
+    for (si, s) in huge.iter().enumerate() {
+        let n: usize = s.iter().product();
+        let a = warr(s, |k| hs(k + 3 * si));
+        let scal: Vec<Vec<usize>> = (1..=s.len().min(3)).map(|r| vec![1; r]).collect();
+        let sc = |j: usize| -> String { format!("{}:{}", show_list(&scal[(j + si) % scal.len()]), hex(spats[(j + si) % spats.len()])) };
+        let lean = !thorough;
+        // substring search / counting / prefix tests: every one, on every huge shape
+        for (j, op) in INDEX_OPS.iter().enumerate() { out(format!("{op} {a} {}", sc(j))); if thorough { out(format!("{op} {a} {}", sc(j + 1))); out(format!("{op} {a} {}", sc(j + 2))); } }
+        for (j, op) in other_pairs.iter().enumerate() { if !lean || (j + si) % 3 == 0 { out(format!("{op} {a} {}", sc(j))); } }
+        for (j, op) in UNARY_OPS.iter().enumerate() { if !lean || (j + si) % 6 == 0 { out(format!("{op} {a}")); } }
+        for (j, op) in PAD_OPS.iter().enumerate() {
+            if lean && (j + si) % 3 != 0 { continue }
+            out(format!("{op} {a} 1:6 none")); if !lean { out(format!("{op} {a} 1:7 1:2a")); out(format!("{op} {a} {} {}", warr(&s[s.len() - 1..], |k| ((k * 5) % 9).to_string()), warr(&scal[0], fill))); }
+        }
+        for (j, op) in ["split", "rsplit"].iter().enumerate() {
+            if lean && (j + si) % 2 != 0 { continue }
+            out(format!("{op} {a} {} none", sc(j + 1))); if !lean { out(format!("{op} {a} {} 1:1", sc(j))); out(format!("{op} {a} none 1:2")); }
+        }
+        let misc: Vec<String> = vec![format!("multiply {a} 1:2"), format!("splitlines {a} none"), format!("splitlines {a} 1:1"), format!("translate {a} 6162,2d2b,4161"),
+            format!("zfill {} 4", warr(s, |k| hex(NUMS[(k + k / 7) % NUMS.len()]))), format!("compare {a} {} {}", sc(1), hex(["<", "==", ">="][si % 3])), format!("multiply {a} {}", warr(&s[s.len() - 1..], |k| (k % 3).to_string()))];
+        for (j, l) in misc.iter().enumerate() { if !lean || (j + si) % 4 == 0 { out(l.clone()); } }
+        // (the model's three-operand lifting is quadratic: 0.8 s at 16 385, 15 s at 70 001 — replace stays at <= 20 000 / 33 000 elements)
+        if (!lean && n <= 33000) || (n <= 20000 && si % 2 == 0) { late.push(format!("replace {a} {} 1:{} none", sc(0), hex("xy"))); late.push(format!("replace {a} 1:{} 1:{} 1", hex("a"), hex(""))); }
+        // array partners: same shape, trailing axis, unit axes
+        if n <= 40000 || thorough {
+            let ps = partners(s);
+            for (pi, p) in ps.iter().enumerate() {
+                if pi == 1 { continue }   // `[1]` is above
+                let b = warr(p, |k| hp(k + pi));
+                let all: Vec<&str> = PAIR_OPS.iter().chain(STRIP_OPS.iter()).copied().collect();
+                for t in 0..(if lean { 2 } else { all.len() }) { let op = all[(si * 5 + pi * 3 + t * 7) % all.len()]; out(format!("{op} {a} {b}")); }
+                if !lean { out(format!("split {a} {b} none")); out(format!("rsplit {a} {b} {}", warr(p, |k| (k % 4).to_string()))); out(format!("center {a} {} none", warr(p, |k| (k % 9).to_string()))); }
+            }
+        }
+    }
+    // ---- (6b) shapes that collide under the weak polynomial hashes: A, B, A with a scalar-like, a same-shape and a trailing-axis partner
+    for (i, (sa, sb)) in collision_shape_pairs().into_iter().enumerate() {
+        let nb: usize = sb.iter().product();
+        if nb > 600 && !thorough && i % 3 != 0 { continue }
+        let all: Vec<&str> = PAIR_OPS.iter().chain(STRIP_OPS.iter()).copied().collect();
+        let (xa, xb) = (warr(&sa, |k| hs(k + i)), warr(&sb, |k| hs(k + i + 1)));
+        for t in 0..3usize {
+            let op = all[(i * 3 + t) % all.len()];
+            match t {
+                0 => { let p = format!("1:{}", hp(i)); for x in [&xa, &xb, &xa] { out(format!("{op} {x} {p}")); } }
+                1 => { for (x, sh) in [(&xa, &sa), (&xb, &sb), (&xa, &sa)] { out(format!("{op} {x} {}", warr(sh, |k| hp(k + i)))); } }
+                _ => { for (x, sh) in [(&xa, &sa), (&xb, &sb), (&xa, &sa)] { out(format!("{op} {x} {}", warr(&sh[sh.len() - 1..], |k| hp(k + i)))); } }
+            }
+        }
+        let u = UNARY_OPS[i % UNARY_OPS.len()];
+        for x in [&xa, &xb, &xa] { out(format!("{u} {x}")); }
+        let pd = PAD_OPS[i % 3];
+        for (x, sh) in [(&xa, &sa), (&xb, &sb), (&xa, &sa)] { out(format!("{pd} {x} {} none", warr(&sh[sh.len() - 1..], |k| (k % 7).to_string()))); }
+        let sp = ["split", "rsplit"][i % 2];
+        for x in [&xa, &xb, &xa] { out(format!("{sp} {x} 1:{} 1:2", hex("-"))); }
+        if i % 4 == 0 { for (x, sh) in [(&xa, &sa), (&xb, &sb), (&xa, &sa)] { out(format!("multiply {x} {}", warr(sh, |k| (k % 3).to_string()))); } }
+    }
+    // ---- (6a) value fingerprints: anagrams / equal length and byte sum next to one another inside an array, and arrays holding the same
+    //      strings in another order directly after one another
+    {
+        let groups: &[&[&str]] = &[&["ab", "ba"], &["abc", "bca", "cab", "acb"], &["Az", "zA"], &["a-b", "-ab", "ab-", "b-a"], &["aab", "aba", "baa"], &["a b", " ab", "ab "], &["ad", "bc", "cb", "da"],
+            &["lazy dogs, LAZY DOGS: 1234", "LAZY dogs, lazy DOGS: 4321", "1234 :SGOD YZAL ,sgod yzal"], &["12", "21"], &["-5", "5-"], &["aZ", "Za", "bY", "Yb"], &["x\ny", "y\nx", "\nxy"]];
+        let flat: Vec<String> = groups.iter().flat_map(|g| g.iter().map(|x| hex(x))).collect();
+        let n = flat.len();
+        let orders: Vec<Vec<usize>> = vec![(0..n).collect(), (0..n).rev().collect(), (0..n).map(|k| (k * 7 + 3) % n).collect(), (0..n).map(|k| if k % 2 == 0 { k + 1 - 2 * ((k + 1 >= n) as usize) } else { k - 1 }).collect(), (0..n).collect()];
+        let arrs: Vec<String> = orders.iter().map(|o| warr(&[n], |k| flat[o[k] % n].clone())).collect();
+        for op in UNARY_OPS { for a in &arrs { out(format!("{op} {a}")); } }
+        for op in PAIR_OPS.iter().chain(STRIP_OPS.iter()) { for p in ["a", "b", "ab"] { for a in &arrs { out(format!("{op} {a} 1:{}", hex(p))); } } }
+        for op in PAIR_OPS.iter().chain(STRIP_OPS.iter()) { for (t, a) in arrs.iter().enumerate() { out(format!("{op} {a} {}", arrs[(t + 1) % arrs.len()])); } }
+        for op in PAD_OPS { for a in &arrs { out(format!("{op} {a} 1:9 1:2a")); } }
+        for op in ["split", "rsplit"] { for a in &arrs { out(format!("{op} {a} 1:{} none", hex("a"))); out(format!("{op} {a} none 1:1")); } }
+        for a in &arrs { out(format!("multiply {a} 1:2")); out(format!("splitlines {a} 1:1")); out(format!("translate {a} 6162,6261")); late.push(format!("replace {a} 1:{} 1:{} 1", hex("a"), hex("b"))); }
+    }
+    // ---- (6c) a refused call directly followed by a valid one on the same thread (and the same operands in the other order)
+    {
+        let (a2, a3, a6) = (format!("2:{},{}", hex("a-b"), hex("b")), format!("3:{},{},{}", hex("-"), hex("a"), hex("b")), warr(&[2, 3], hs));
+        for op in PAIR_OPS.iter().chain(STRIP_OPS.iter()) { out(format!("{op} {a2} {a3}")); out(format!("{op} {a6} {a3}")); out(format!("{op} {a6} {a2}")); out(format!("{op} {a2} {a2}")); }
+        for op in ["split", "rsplit"] { out(format!("{op} {a2} {a3} none")); out(format!("{op} {a2} {a2} none")); out(format!("{op} {a2} {a2} 3:1,2,3")); out(format!("{op} {a6} {a3} 1:1")); }
+        for op in PAD_OPS { out(format!("{op} {a2} 3:1,2,3 none")); out(format!("{op} {a2} 2:4,5 none")); out(format!("{op} {a2} 2:1,2 3:2a,2a,2a")); out(format!("{op} {a6} 3:7,8,9 1:2a")); }
+        out(format!("multiply {a2} 3:1,2,3")); out(format!("multiply {a2} 2:1,2")); out(format!("splitlines {a2} 3:0,1,0")); out(format!("splitlines {a2} 2:0,1"));
+        out(format!("zfill 2:{},{} 6", hex("12"), hex("x"))); out(format!("zfill 2:{},{} 6", hex("12"), hex("-7")));
+        out(format!("compare {a2} {a2} {}", hex("bogus"))); out(format!("compare {a2} {a2} {}", hex("<=")));
+        late.push(format!("replace {a2} {a3} {a2} none")); late.push(format!("replace {a2} {a2} {a2} none"));
+    }
+    // ---- (8) exact lengths: every string length 1..130 and 255, 256, 257, 300 (word-wise / blocked scans with a scalar tail), over
+    //      alphabets that hold only the LAST letter of a range ('Z' / 'z'), only digits, the pattern at the very end
+    {
+        let lens: Vec<usize> = (1..=130usize).chain([191, 255, 256, 257, 300]).collect();
+        let gens: Vec<Box<dyn Fn(usize) -> String>> = vec![
+            Box::new(|l| "Z".repeat(l)), Box::new(|l| "z".repeat(l)), Box::new(|l| (0..l).map(|i| b"aZzA-0 yY9"[i % 10] as char).collect()),
+            Box::new(|l| format!("{}ab", "-".repeat(l.saturating_sub(2)))), Box::new(|l| format!("{}Z", "a".repeat(l - 1))), Box::new(|l| format!("{}{}", " ".repeat(l / 2), "9".repeat(l - l / 2))),
+            Box::new(|l| (0..l).map(|i| if i % 9 == 8 { '\n' } else { b"abAB"[i % 4] as char }).collect())];
+        for (gi, g) in gens.iter().enumerate() {
+            if !thorough && gi >= 5 { continue }
+            let a = warr(&[lens.len()], |k| hex(&g(lens[k])));
+            for op in UNARY_OPS { out(format!("{op} {a}")); }
+            for (j, op) in PAIR_OPS.iter().chain(STRIP_OPS.iter()).enumerate() { if thorough || (j + gi) % 2 == 0 || INDEX_OPS.contains(op) { out(format!("{op} {a} 1:{}", hex(["ab", "Z", "z", "-", "a", "9", "B"][(gi + j) % 7]))); } }
+            out(format!("splitlines {a} none")); out(format!("translate {a} 5a7a,7a5a,2d2b")); out(format!("multiply {a} 1:2"));
+            for op in ["split", "rsplit"] { out(format!("{op} {a} 1:{} none", hex(["Z", "z", "a", "-", "a", " ", "\n"][gi]))); out(format!("{op} {a} none 1:3")); }
+            late.push(format!("replace {a} 1:{} 1:{} none", hex(["Z", "z", "zA", "-", "a", "9", "AB"][gi]), hex("+")));
+        }
+        // every width 0..300 against one short string per position (padding by a table / block of blanks)
+        let w = warr(&[301], |k| k.to_string());
+        for op in PAD_OPS { out(format!("{op} 1:{} {w} none", hex("abc"))); out(format!("{op} 1:{} {w} 1:2a", hex("ab"))); out(format!("{op} {} {w} none", warr(&[301], |k| hs(k)))); }
+        out(format!("multiply 1:{} {}", hex("ab"), warr(&[131], |k| k.to_string())));
+        out(format!("zfill {} 300", warr(&[10], |k| hex(NUMS[k])))); for wd in [31usize, 37, 49, 63, 64, 65, 127, 128, 129] { out(format!("zfill {} {wd}", warr(&[10], |k| hex(NUMS[k])))); }
+    }
+    // ---- (9) aliasing: the second operand IS the receiver (`a.op(&a)`); `exec` passes the very same object when both are spelled alike
+    for s in [vec![1usize], vec![7], vec![2, 3], vec![2, 2, 2], vec![17, 16], vec![300], vec![0], vec![2, 0]] {
+        for off in [0usize, 11] {
+            let a = warr(&s, |k| hs(k + off));
+            for op in PAIR_OPS { out(format!("{op} {a} {a}")); }
+            late.push(format!("replace {a} {a} {a} none")); late.push(format!("replace {a} {a} {a} 1"));
+        }
+    }
+    // ---- (10) ranks 4..6 (the statement names ranks 1..3; the lifting is rank-generic)
+    for (s, p) in [(vec![2usize, 1, 2, 3], vec![2usize, 3]), (vec![2, 1, 2, 1, 2], vec![2, 1, 1]), (vec![1, 2, 1, 2, 1, 3], vec![3]), (vec![2, 2, 2, 2], vec![1]), (vec![3, 1, 1, 2], vec![3, 2, 1, 2])] {
+        let (a, b) = (warr(&s, hs), warr(&p, hp));
+        for op in PAIR_OPS.iter().chain(STRIP_OPS.iter()) { out(format!("{op} {a} {b}")); }
+        for op in UNARY_OPS { out(format!("{op} {a}")); }
+        for op in PAD_OPS { out(format!("{op} {a} {} none", warr(&p, |k| (k % 8).to_string()))); }
+        for op in ["split", "rsplit"] { out(format!("{op} {a} {b} none")); out(format!("{op} {a} {b} {}", warr(&p, |k| (k % 3).to_string()))); }
+        out(format!("multiply {a} {}", warr(&p, |k| (k % 3).to_string()))); out(format!("splitlines {a} {}", warr(&p, |k| (k % 2).to_string())));
+        late.push(format!("replace {a} {b} 1:{} none", hex("+")));
+    }
+    let _ = seed;
 }
 
 /// would the pinned (unrepaired) loop run forever on this input? (only used to ORDER the cases: those go last)
